@@ -11,6 +11,9 @@ type C01Case struct {
 	Root V `json:"root"`
 	// Muts: mutations of (nested) containers after the first round trip; the round trip is then repeated
 	Muts []CloneMut `json:"muts,omitempty"`
+	// Share: the root holds the same non-empty container content twice and is built with ONE instance at
+	// both places (an acyclic structure in which a container is reachable along two paths)
+	Share bool `json:"share,omitempty"`
 }
 
 func genTreeCase(t *rapid.T) V {
@@ -21,11 +24,63 @@ func genTreeCase(t *rapid.T) V {
 	if oneIn(t, 31, "chainclass") {
 		return GenChain(t, cfg, 40)
 	}
+	if oneIn(t, 400, "verydeep") {
+		// beyond any plausible depth guard of the serialiser (quick: 1001-1500 levels)
+		v := GenChain(t, cfg, 500)
+		for i := 0; i < 1000; i++ {
+			v = VList(v)
+		}
+		return v
+	}
 	return GenRoot(t, cfg)
+}
+
+// withSharedChild appends a copy of one non-empty container child to the root, so that the tree holds
+// the same content twice; built with BuildSharing both places are ONE instance (an acyclic structure in
+// which a container is reachable along two paths). ok is false if the root has no such child.
+func withSharedChild(t *rapid.T, a V) (V, bool) {
+	var kids []V
+	if a.K == KList {
+		for _, e := range a.L {
+			if (e.K == KList && len(e.L) > 0) || (e.K == KObject && len(e.O) > 0) {
+				kids = append(kids, e)
+			}
+		}
+	} else {
+		for _, p := range a.O {
+			if (p.V.K == KList && len(p.V.L) > 0) || (p.V.K == KObject && len(p.V.O) > 0) {
+				kids = append(kids, p.V)
+			}
+		}
+	}
+	if len(kids) == 0 {
+		return a, false
+	}
+	dup := kids[drawIdx(t, len(kids), "dup")].Clone()
+	if a.K == KList {
+		a.L = append(append([]V{}, a.L...), dup)
+		return a, true
+	}
+	if _, taken := a.Field("dup"); taken {
+		return a, false
+	}
+	a.O = append(append([]Pair{}, a.O...), Pair{"dup", dup})
+	return a, true
+}
+
+// buildMaybeShared builds the container of a text-property case.
+func buildMaybeShared(root V, share bool) any {
+	if share {
+		return BuildSharing(root)
+	}
+	return Build(root)
 }
 
 func GenC01(t *rapid.T) *C01Case {
 	c := &C01Case{Root: genTreeCase(t)}
+	if oneIn(t, 8, "share") {
+		c.Root, c.Share = withSharedChild(t, c.Root)
+	}
 	if oneIn(t, 5, "remutate") {
 		c.Muts = genNestedMuts(t)
 	}
@@ -73,7 +128,10 @@ func CheckC01(c *C01Case, st *Stats) error {
 	if c.Root.K != KList && c.Root.K != KObject {
 		return nil
 	}
-	orig := Build(c.Root)
+	orig := buildMaybeShared(c.Root, c.Share)
+	if c.Share {
+		st.Count("shared_instance")
+	}
 	if err := roundTrip(orig, c.Root, st); err != nil {
 		return err
 	}
@@ -152,6 +210,6 @@ func roundTrip(orig any, root V, st *Stats) error {
 
 func init() {
 	Register("C01",
-		"rapid-generated value trees (list or object root; leaves and keys from class tables: whole-valued/-0/subnormal/extreme/17-digit floats, edge ints, strings with C0/DEL/C1/U+2028/U+FFFD/non-characters/astral/JSON-special runes, empty key; deep-chain class). Non-trivial = tree has at least one hard leaf (whole-valued, -0, subnormal, exponent-form or 17-digit float; |int| >= 2^31; string or key with a rune outside printable ASCII or a JSON-special character; empty key). Distinct = distinct FNV-64a hash of the case JSON.",
+		"rapid-generated value trees (one in eight holds ONE container instance at two places; now and then 1001-1500 nesting levels) (list or object root; leaves and keys from class tables: whole-valued/-0/subnormal/extreme/17-digit floats, edge ints, strings with C0/DEL/C1/U+2028/U+FFFD/non-characters/astral/JSON-special runes, empty key; deep-chain class). Non-trivial = tree has at least one hard leaf (whole-valued, -0, subnormal, exponent-form or 17-digit float; |int| >= 2^31; string or key with a rune outside printable ASCII or a JSON-special character; empty key). Distinct = distinct FNV-64a hash of the case JSON.",
 		GenC01, CheckC01)
 }
